@@ -53,6 +53,9 @@ CLAIMED = {
  "C12": ("Bounded model checking by induction on the same DHCP step harness: every OFFER/ACK carries the subnet mask, router and DNS server of the subnet selected by the client's capture state, mask before router, our server identifier and the subnet's lease time, echoes xid and chaddr; an ACK confirms the offer of this transaction or the client's current unexpired lease and is never sent for a request selecting another server; a NAK carries no address; in all three operating modes.",
          "Trusted: as C11. The full NAK-versus-silence table is not asserted (only 'never ACK' conditions).",
          "DESIGN.md §4 C11-C12", "inductive step by bounded symbolic execution, SMT-decided reply contract"),
+ "C14": ("Bounded model checking of the real ICMPv6 spoofing handler on a real Session: StartHunt/StopHunt validation and idempotence over every hunt list of <= 2 entries; the spoof loop sends forged NAs (source = router link-local, target-LLA option = host MAC, override set) only to hunted link-local hosts per known router, and stops with the corrective NA carrying the router's real MAC after StopHunt / nothing after Close; ProcessPacket of an arbitrary valid Router Advertisement (every subset of prefix / MTU / RDNSS / source-LLA / single-name DNSSL options, all values symbolic) records exactly what an independent decoder reads from the packet bytes (flags, lifetimes, prefix, MTU, DNS servers, search list, MAC) and keeps no pointer into the packet buffer.",
+         "Trusted: go/ssa, gse semantics (sequential, StopHunt/Close at iteration boundaries), z3, the harness's reference RA decoder, Checksum uninterpreted (C15). Multi-label / multi-name DNSSL and route-information contents outside.",
+         "DESIGN.md §4 C14", "bounded symbolic execution of the handler, SMT-decided differential against a reference RA decoder"),
 }
 
 NOT_APPLICABLE = {
